@@ -390,3 +390,17 @@ pub const fn both_sides_typed(a: i32, b: i32) -> i32 {
     }
     x + y
 }
+
+// ---- locals named like constructors of Coq's prelude
+pub const fn names_clash(a: i32, b: i32) -> i32 {
+    if b <= 0 {
+        return 0;
+    }
+    let pair = divmod(a, b);
+    let (left, right) = pair;
+    let nil = left - right;
+    match res_of(a, b) {
+        Ok(pair) => pair + nil,
+        Err(cons) => (cons % 1000) as i32,
+    }
+}
